@@ -19,6 +19,36 @@ import (
 func init() {
 	register("C07", "exploration", C07)
 	Replayers["C07"] = func(raw []byte) string {
+		var osf struct {
+			Tree   int    `json:"tree_index"`
+			Start  int64  `json:"start"`
+			Comp   string `json:"compressor"`
+			OSFile bool   `json:"on_os_file"`
+		}
+		if json.Unmarshal(raw, &osf) == nil && osf.OSFile {
+			trees := c07Trees(true, 4096)
+			if t2 := c07Trees(false, 4096); osf.Tree >= len(trees) {
+				trees = t2
+			}
+			if osf.Tree >= len(trees) {
+				return "tree index out of range"
+			}
+			c := sqCase{Comp: osf.Comp, Blocksize: 4096}
+			img, err := buildSquashOnFile(trees[osf.Tree], sqOptions(&c), 4096, osf.Start)
+			if err != nil {
+				return err.Error()
+			}
+			fs, err := img.open(true)
+			if err != nil {
+				return "cannot open: " + err.Error()
+			}
+			for p, want := range trees[osf.Tree].Files {
+				if got, e := fs.ReadFile(p); e != nil || !bytes.Equal(got, want) {
+					return fmt.Sprintf("file %s differs (%v)", p, e)
+				}
+			}
+			return "holds"
+		}
 		var c sqCase
 		if err := json.Unmarshal(raw, &c); err != nil {
 			return "bad case"
@@ -434,6 +464,57 @@ func C07(r *ev.Run) {
 			}
 		}
 	}
+	// a few trees finalized onto a regular file of the operating system instead of the in-memory device, at start 0 and 1 MiB:
+	// read back entry by entry; bytes outside the range compared by the builder
+	var osCases, osOK int64
+	for ti, t := range treesBy[4096] {
+		if ti%37 != 5 || len(t.Files) > 64 {
+			continue
+		}
+		for _, start := range []int64{0, 1 << 20} {
+			for _, comp := range []string{"default", "gzip9"} {
+				osCases++
+				c := sqCase{Tree: ti, Tier: r.Tier, Comp: comp, Blocksize: 4096, Start: start, Cache: -1}
+				img, err := buildSquashOnFile(t, sqOptions(&c), 4096, start)
+				if err != nil {
+					if strings.HasPrefix(err.Error(), "OUTSIDE-RANGE") {
+						r.Report("c07|finalize|os-file|bytes-changed-outside-the-range", err.Error(), map[string]any{"tree_index": ti, "start": start, "compressor": comp, "on_os_file": true})
+					}
+					continue
+				}
+				bad := ""
+				if pm := guard(func() {
+					fs, e := img.open(true)
+					if e != nil {
+						bad = "cannot open: " + e.Error()
+						return
+					}
+					for p, want := range t.Files {
+						got, e := fs.ReadFile(p)
+						if e != nil || !bytes.Equal(got, want) {
+							bad = fmt.Sprintf("file %s: %d bytes read (%v), %d in the source, or bytes differ", p, len(got), e, len(want))
+							return
+						}
+					}
+					for _, dd := range t.Dirs {
+						if _, e := fs.ReadDir(dd); e != nil {
+							bad = "directory " + dd + ": " + e.Error()
+							return
+						}
+					}
+				}); pm != "" {
+					bad = pm
+				}
+				if bad != "" {
+					r.Report("c07|readback|os-file|content", fmt.Sprintf("image finalized onto an OS file at start %d: %s", start, bad), map[string]any{"tree_index": ti, "start": start, "compressor": comp, "on_os_file": true})
+					continue
+				}
+				osOK++
+			}
+		}
+	}
+	r.Set("os_file_cases", osCases)
+	r.Set("os_file_cases_read_back_equal", osOK)
 	// many tails in ONE large fragment block (the last tree of the list for block sizes of 128 KiB and more)
 	for _, bs := range []int64{131072, 1 << 20} {
 		if r.Quick() && bs != 131072 {
